@@ -647,6 +647,143 @@ class G:
         self.dump(sc, "log")
         return self.finish(sc, "v%d_mixed" % ver)
 
+    def v1_iter_exhaust(self):
+        """iterators driven past exhaustion: the key reported afterwards, its size/read/delete cost"""
+        self.begin(0)
+        self.stream, self.valid = "valid", True
+        sc = self.base(1, "recv", pages=1)
+        self.init_kv(sc)
+        if not sc["state0"]:
+            sc["state0"] = [(pattern(256)[0:2], b"xy")]
+        p, L = self.pick([(DATA, 0), (DATA, 0), (DATA, 1), (DATA, 2), (DATA + 1, 1), (DATA + 7, 2)])
+        j = self.call(sc, "state_iterate_prefix", p, L)
+        for _ in range(len(sc["state0"]) + self.pick([0, 1, 2])):
+            self.call(sc, "state_iterator_next", ("s", j))
+            if self.chance(0.3):
+                self.call(sc, "state_iterator_key_size", ("s", j))
+        self.call(sc, "state_iterator_key_size", ("s", j))
+        self.call(sc, "state_iterator_key_read", ("s", j), DEST, 8, self.pick([0, 1]))
+        self.call(sc, "state_iterator_next", ("s", j))
+        self.call(sc, "state_iterator_key_size", ("s", j))
+        if self.chance(0.7):
+            self.call(sc, "state_iterator_delete", ("s", j))
+        self.dump(sc, "log")
+        return self.finish(sc, "v1_iter_exhaust", 0)
+
+    def v1_too_many_iterators(self):
+        """the u32 reference count of a locked prefix, driven to its boundary with the cfg hook"""
+        self.begin(0)
+        self.stream, self.valid = "valid", True
+        sc = self.base(1, "recv", pv=self.pick([4, 5, 7]), pages=1)
+        pat = pattern(256)
+        sc["state0"] = sorted({pat[0:1]: b"a", pat[0:2]: b"bb", pat[1:2]: b"d"}.items())
+        j = self.call(sc, "state_iterate_prefix", DATA, 1)
+        self.call(sc, "invoke", 0, ADDR, 40)
+        cnt = self.pick([U32 - 1, U32 - 2, U32 - 1])
+        sc["resp"].append({"k": "ok", "bal": "5", "data": None, "upd": False, "setlock": [pat[0:1], cnt]})
+        k1 = self.call(sc, "state_iterate_prefix", DATA, 1)      # ERR when the count is u32::MAX
+        k2 = self.call(sc, "state_iterate_prefix", DATA, 1)
+        self.call(sc, "state_iterate_prefix", DATA, 2)            # a different root is unaffected
+        self.call(sc, "state_iterator_delete", ("s", j))
+        self.call(sc, "state_iterate_prefix", DATA, 1)
+        self.call(sc, "state_iterator_next", ("s", k1))
+        self.call(sc, "state_iterator_delete", ("s", k2))
+        self.call(sc, "state_create_entry", DATA, 3)              # still locked
+        self.dump(sc, "log")
+        return self.finish(sc, "v1_too_many_iterators", 0)
+
+    def v1_too_many_interrupts(self, n=None):
+        """parameter list padded (cfg hook) to the TooManyInterrupts boundary of resume_receive"""
+        self.begin(0)
+        self.stream, self.valid = "valid", True
+        sc = self.base(1, "recv", pv=5, pages=1)
+        n = n or self.pick([8388608, 8388608, 8388607])
+        self.call(sc, "log_event", DATA, 2)
+        self.call(sc, "invoke", 0, ADDR, 40)
+        kind = self.pick(["ok", "rej"])
+        if kind == "ok":
+            sc["resp"].append({"k": "ok", "bal": "5", "data": b"\xaa\xbb\xcc", "upd": False, "pad": n})
+        else:
+            sc["resp"].append({"k": "rej", "code": -7, "data": b"\xaa\xbb\xcc", "upd": False, "pad": n})
+        self.call(sc, "get_parameter_size", 8388607)
+        self.call(sc, "get_parameter_size", 8388608)
+        self.call(sc, "get_parameter_section", 8388607, DEST, 3, 0)
+        self.dump(sc, "log")
+        sc["fixed_energies"] = [10 ** 9]
+        return self.finish(sc, "v1_too_many_interrupts", 0)
+
+    def v1_reenter(self):
+        """re-entrancy: while the contract is interrupted a nested call runs on a fresh generation of its state;
+        committed (state changed: handles and iterators invalidated) or rolled back (unchanged)"""
+        self.begin(0)
+        self.stream, self.valid = "valid", True
+        sc = self.base(1, "recv", pages=1)
+        self.init_kv(sc)
+        eh, ih = [], []
+        for _ in range(self.r.randrange(1, 5)):
+            p, L = self.pick(self.KEYS)
+            op = self.pick(["create", "lookup", "lookup", "iter", "write"])
+            if op == "iter":
+                ih.append(self.call(sc, "state_iterate_prefix", p, L))
+            elif op == "write" and eh:
+                self.call(sc, "state_entry_write", ("s", self.pick(eh)), DATA + 30, self.pick([1, 8, 40]), 0)
+            else:
+                eh.append(self.call(sc, "state_%s_entry" % ("create" if op == "create" else "lookup"), p, L))
+        # the nested call
+        ncalls = []
+        neh = []
+        for _ in range(self.r.randrange(1, 6)):
+            p, L = self.pick(self.KEYS)
+            op = self.pick(["create", "lookup", "delete", "write", "resize", "dprefix", "iter", "size"])
+            if op in ("create", "lookup"):
+                ncalls.append(("state_%s_entry" % op, [p, L]))
+                neh.append(len(ncalls) - 1)
+            elif op == "delete":
+                ncalls.append(("state_delete_entry", [p, L]))
+            elif op == "dprefix":
+                ncalls.append(("state_delete_prefix", [p, L]))
+            elif op == "iter":
+                ncalls.append(("state_iterate_prefix", [p, L]))
+            elif neh and op == "write":
+                ncalls.append(("state_entry_write", [("s", self.pick(neh)), DATA + 60, self.pick([0, 3, 50]), self.pick([0, 1])]))
+            elif neh and op == "resize":
+                ncalls.append(("state_entry_resize", [("s", self.pick(neh)), self.pick([0, 5, 100])]))
+            elif neh:
+                ncalls.append(("state_entry_size", [("s", self.pick(neh))]))
+        nret = self.pick([0, 0, 0, -3])
+        if self.chance(0.15):
+            ncalls.append(("log_event", [U32 - 1, 2]))           # the nested call traps: rolled back
+        nested = {"param": b"\x01\x02", "data": [[DATA, pattern(256)]], "calls": ncalls, "ret": nret,
+                  "commit": self.chance(0.7), "energy": 10 ** 9}
+        self.call(sc, "invoke", 0, ADDR, 40)
+        sc["resp"].append({"k": self.pick(["ok", "ok", "fail"]), "bal": "9", "data": None, "n": 6, "upd": False, "nested": nested})
+        # afterwards: old handles, fresh lookups, ownership (copy-on-write charges), locks
+        for _ in range(self.r.randrange(3, 9)):
+            p, L = self.pick(self.KEYS)
+            op = self.pick(["oldsize", "oldread", "oldwrite", "lookup", "create", "delete", "next", "ksize", "idel", "write", "resize"])
+            if op == "oldsize":
+                self.call(sc, "state_entry_size", self.handle(sc, eh))
+            elif op == "oldread":
+                self.call(sc, "state_entry_read", self.handle(sc, eh), DEST, 16, 0)
+            elif op == "oldwrite":
+                self.call(sc, "state_entry_write", self.handle(sc, eh), DATA + 90, 4, 0)
+            elif op in ("lookup", "create"):
+                eh.append(self.call(sc, "state_%s_entry" % op, p, L))
+            elif op == "delete":
+                self.call(sc, "state_delete_entry", p, L)
+            elif op == "next":
+                eh.append(self.call(sc, "state_iterator_next", self.handle(sc, ih)))
+            elif op == "ksize":
+                self.call(sc, "state_iterator_key_size", self.handle(sc, ih))
+            elif op == "idel":
+                self.call(sc, "state_iterator_delete", self.handle(sc, ih))
+            elif op == "write":
+                self.call(sc, "state_entry_write", self.handle(sc, eh), DATA + 120, self.pick([0, 2, 30]), self.pick([0, 1]))
+            else:
+                self.call(sc, "state_entry_resize", self.handle(sc, eh), self.pick([0, 7, 200]))
+        self.dump(sc, "log")
+        return self.finish(sc, "v1_reenter", 0)
+
     def corpus_iter(self):
         """fixed regression script: iterator life cycle, locks, traversal (energy is a lower bound here)"""
         self.begin(0)
@@ -666,6 +803,12 @@ class G:
         self.call(sc, "state_iterator_delete", ("s", j))      # already deleted: 0
         self.call(sc, "state_delete_prefix", DATA, 1)         # 2
         self.call(sc, "state_lookup_entry", DATA, 2)          # NONE
+        k = self.call(sc, "state_iterate_prefix", DATA + 1, 1)
+        self.call(sc, "state_iterator_next", ("s", k))
+        self.call(sc, "state_iterator_next", ("s", k))        # exhausted
+        self.call(sc, "state_iterator_key_size", ("s", k))
+        self.call(sc, "state_iterator_key_read", ("s", k), DEST + 32, 8, 0)
+        self.call(sc, "state_iterator_delete", ("s", k))
         self.dump(sc, "log")
         return self.finish(sc, "corpus_iterator", 0)
 
@@ -674,7 +817,8 @@ class G:
         plan = [(self.v0_state, 14), (lambda: self.logs(0), 6), (lambda: self.logs(1), 6), (lambda: self.params(0), 7),
                 (lambda: self.params(1), 8), (self.v0_actions, 10), (lambda: self.ctx(0), 5), (lambda: self.ctx(1), 5),
                 (self.v1_state, 18), (self.v1_rv, 7), (self.v1_invoke, 16), (self.v1_crypto, 8),
-                (lambda: self.mixed(0), 5), (lambda: self.mixed(1), 7), (self.v1_bigentry, 1), (self.v0_oversized_state, 0.3)]
+                (lambda: self.mixed(0), 5), (lambda: self.mixed(1), 7), (self.v1_bigentry, 1), (self.v0_oversized_state, 0.3),
+                (self.v1_iter_exhaust, 5), (self.v1_too_many_iterators, 2), (self.v1_reenter, 9)]
         tot = sum(w for _, w in plan)
         for i in range(n):
             x = self.r.random() * tot
@@ -685,7 +829,8 @@ class G:
             sc = f()
             sc["id"] = i
             out.append(sc)
-        for f in (self.v0_oversized_state, self.corpus_iter):    # fixed regression seeds, every run
+        for f in (self.v0_oversized_state, self.corpus_iter, self.v1_too_many_iterators, self.v1_reenter,
+                  lambda: self.v1_too_many_interrupts(8388608)) + (() if n <= 200 else (lambda: self.v1_too_many_interrupts(8388607),)):
             sc = f()
             sc["id"] = len(out)
             out.append(sc)
@@ -697,113 +842,108 @@ def to_harness(sc, energies):
     def enc_arg(a):
         return ["s", a[1]] if isinstance(a, tuple) else ["c", str(a)]
 
+    def enc_calls(calls):
+        return [{"f": f, "a": [enc_arg(a) for a in args]} for f, args in calls]
+
     def enc_resp(r):
         r = dict(r)
         if r.get("data") is not None:
             r["data"] = bytes(r["data"]).hex()
+        if r.get("setlock"):
+            r["setlock"] = [bytes(r["setlock"][0]).hex(), str(r["setlock"][1])]
+        if r.get("nested"):
+            n = r["nested"]
+            r["nested"] = {"param": bytes(n["param"]).hex(), "data": [[o, bytes(b).hex()] for o, b in n["data"]],
+                           "calls": enc_calls(n["calls"]), "ret": n["ret"], "commit": n["commit"], "energy": str(n["energy"])}
         return r
     st0 = sc["state0"].hex() if sc["ver"] == 0 else [[k.hex(), v.hex()] for k, v in sc["state0"]]
     return {"id": sc["id"], "ver": sc["ver"], "kind": sc["kind"], "pv": sc["pv"], "pages": sc["pages"], "param": sc["param"].hex(),
             "policy": sc["policy"].hex(), "sender": sc["sender"], "state0": st0,
             "data": [[o, bytes(b).hex()] for o, b in sc["data"]],
-            "calls": [{"f": f, "a": [enc_arg(a) for a in args]} for f, args in sc["calls"]],
+            "calls": enc_calls(sc["calls"]),
             "ret": sc["ret"], "resp": [enc_resp(r) for r in sc["resp"]], "energies": [str(e) for e in energies]}
 
 
-def cb(b):
-    """Gallina term for a byte string: long arithmetic runs (mod 256) become `runN n start step`"""
+def hx_tok(b):
     b = bytes(b)
-    if len(b) < 48:
-        return "[" + ";".join(str(x) for x in b) + "]"
-    parts, lit, i = [], [], 0
-    while i < len(b):
-        j = i + 1
-        if j < len(b):
-            d = (b[j] - b[i]) & 0xff
-            while j + 1 < len(b) and ((b[j + 1] - b[j]) & 0xff) == d:
-                j += 1
-            n = j - i + 1
-        else:
-            d, n = 0, 1
-        if n >= 24:
-            if lit:
-                parts.append("[" + ";".join(str(x) for x in lit) + "]")
-                lit = []
-            parts.append("runN %d %d %d" % (n, b[i], d))
-            i += n
-        else:
-            lit.append(b[i])
-            i += 1
-    if lit:
-        parts.append("[" + ";".join(str(x) for x in lit) + "]")
-    return "(" + " ++ ".join(parts) + ")"
+    return b.hex() if b else "-"
 
 
-def to_coq(sc, digests):
-    tab = V0 if sc["ver"] == 0 else V1
-    calls = []
-    for f, args in sc["calls"]:
+def calls_tok(ver, calls):
+    tab = V0 if ver == 0 else V1
+    out = [str(len(calls))]
+    for f, args in calls:
         ws, rw = tab[f]
-        al = []
+        out += [f, str(rw), str(len(args))]
         for a, w in zip(args, ws):
             if isinstance(a, tuple):
-                al.append("AS%d %d" % (32 if w == 4 else 64, a[1]))
+                out += ["A" if w == 4 else "B", str(a[1])]
             else:
-                al.append("AC %d" % a)
-        calls.append("mkCall (F%d V%d%s) [%s] %d" % (sc["ver"], sc["ver"], f, ";".join(al), rw))
-    resps = []
+                out += ["C", str(a)]
+    return out
+
+
+def data_tok(data):
+    out = [str(len(data))]
+    for o, b in data:
+        out += [str(o), hx_tok(b)]
+    return out
+
+
+def to_model_line(sc, digests, energies):
+    """one line of the extracted runner's input format (ocaml/driver_c14.ml)"""
+    t = ["S", str(sc["id"]), "1" if sc["ver"] == 1 else "0", "1" if sc["kind"] == "init" else "0", str(sc["pv"]), str(sc["pages"]),
+         hx_tok(sc["param"]), hx_tok(sc["policy"]), "1" if sc["sender"] == "acc" else "0"]
+    if sc["ver"] == 0:
+        t += [hx_tok(sc["state0"]), "0"]
+    else:
+        t += ["-", str(len(sc["state0"]))]
+        for k, v in sc["state0"]:
+            t += [hx_tok(k), hx_tok(v)]
+    t += data_tok(sc["data"])
+    t += calls_tok(sc["ver"], sc["calls"])
+    t.append(str(sc["ret"] & 0xffffffff))
+    t.append(str(len(sc["resp"])))
     for r in sc["resp"]:
-        u = "true" if r["upd"] else "false"
+        u = "1" if r.get("upd") else "0"
         if r["k"] == "ok":
-            d = "None" if r["data"] is None else "(Some %s)" % cb(r["data"])
-            resps.append("RespOk %s %s %s" % (r["bal"], d, u))
+            t += ["O", str(r["bal"]), "~" if r["data"] is None else hx_tok(r["data"]), u]
         elif r["k"] == "rej":
-            resps.append("RespReject %d %s %s" % (r["code"] & 0xffffffff, cb(r["data"]), u))
+            t += ["R", str(r["code"] & 0xffffffff), hx_tok(r["data"]), u]
         else:
-            resps.append("RespFail %d %s" % (r["n"], u))
-    st0 = cb(sc["state0"]) if sc["ver"] == 0 else "[]"
-    kv0 = "[]" if sc["ver"] == 0 else "[" + ";".join("(%s,%s)" % (cb(k), cb(v)) for k, v in sc["state0"]) + "]"
-    return "(mkScript %s %s %d %d %s %s %s %s %s [%s] [%s] %d [%s] [%s])" % (
-        "true" if sc["ver"] == 1 else "false", "true" if sc["kind"] == "init" else "false", sc["pv"], sc["pages"],
-        cb(sc["param"]), cb(sc["policy"]), "true" if sc["sender"] == "acc" else "false", st0, kv0,
-        ";".join("(%d,%s)" % (o, cb(b)) for o, b in sc["data"]), ";".join(calls), sc["ret"] & 0xffffffff,
-        ";".join(resps), ";".join(cb(d) for d in digests))
+            t += ["F", str(r["n"]), u]
+        if r.get("setlock"):
+            t += ["L", hx_tok(r["setlock"][0]), str(r["setlock"][1])]
+        else:
+            t.append("L0")
+        t += ["P", str(r.get("pad", 0))]
+        if r.get("nested"):
+            n = r["nested"]
+            t += ["N1", hx_tok(n["param"])] + data_tok(n["data"]) + calls_tok(1, n["calls"])
+            t += [str(n["ret"] & 0xffffffff), "1" if n["commit"] else "0", str(n["energy"])]
+        else:
+            t.append("N0")
+    t.append(str(len(digests)))
+    t += [hx_tok(d) for d in digests]
+    t.append(str(len(energies)))
+    t += [str(e) for e in energies]
+    return " ".join(t)
 
-
-PRE = ("From Coq Require Import NArith List Bool. Import ListNotations.\n"
-       "From CB Require Import Gen.HostCosts Contract.HostBase Contract.HostV0 Contract.HostV1 Contract.HostRun.\n"
-       "Local Open Scope N_scope.\n")
 
 CLASS = {0: "success", 1: "reject", 2: "trap", 3: "ooe", 4: "invalid", 5: "FAULT"}
 
 
-def unpk(t):
-    n, words = t
-    return b"".join(int(w).to_bytes(32, "little") for w in words)[:n]
-
-
-def hx(t):
-    return unpk(t).hex()
-
-
-def canon_model(t):
-    cls, code, rem, state, kv, logs, rv, actions, (ints, changed, hashes, (unspec, lower), ticks) = t
+def canon_model(j):
     acts = []
-    for (k, a, b, x, amt, y) in actions:
-        if k == 0:
-            acts.append(["accept"])
-        elif k == 1:
-            acts.append(["transfer", hx(x), str(amt)])
-        elif k == 2:
-            acts.append(["send", str(a), str(b), unpk(x).decode("latin1"), str(amt), hx(y)])
-        elif k == 3:
-            acts.append(["and", a, b])
-        else:
-            acts.append(["or", a, b])
-    return {"out": CLASS[cls], "code": code - U32 if code >= (1 << 31) else code, "rem": rem, "state": hx(state),
-            "kv": [[hx((kn, kw)), hx(v)] for kn, kw, v in kv], "logs": [[hx(e) for e in seg] for seg in logs], "rv": hx(rv),
-            "actions": acts, "ints": [hx(i) for i in ints], "changed": [x == "true" for x in changed],
-            "hashes": [(k, unpk(d)) for k, d in hashes], "unspec": unspec == "true", "lower": lower == "true", "ticks": ticks}
+    for a in j["actions"]:
+        if a[0] == "send":
+            a = ["send", a[1], a[2], bytes.fromhex(a[3]).decode("latin1"), a[4], a[5]]
+        acts.append(a)
+    code = int(j["code"])
+    return {"out": CLASS[j["cls"]], "code": code - U32 if code >= (1 << 31) else code, "rem": int(j["rem"]), "state": j["state"],
+            "kv": j["kv"], "logs": j["logs"], "rv": j["rv"], "actions": acts, "ints": j["ints"], "changed": j["changed"],
+            "hashes": [(k, bytes.fromhex(d)) for k, d in j["hashes"]], "unspec": j["unspec"], "lower": j["lower"],
+            "nested": [[c_, int(rm), lw] for c_, rm, lw in j["nested"]], "ticks": [int(x) for x in j["ticks"]]}
 
 
 def compare(sc, e, m, r):
@@ -849,6 +989,12 @@ def compare(sc, e, m, r):
         if r["logs"] != m["logs"]:
             d.append("logs differ: model %s impl %s" % (json.dumps(m["logs"])[:300], json.dumps(r["logs"])[:300]))
     if out in ("success", "reject") and sc["ver"] == 1:
+        rn = r.get("nested") or []
+        if len(rn) != len(m["nested"]):
+            d.append("nested runs: model %d impl %d" % (len(m["nested"]), len(rn)))
+        for (ic, irem), (mc, mrem, mlow) in zip(rn, m["nested"]):
+            if ic != mc or (int(irem) != mrem and not mlow) or (mlow and int(irem) > mrem):
+                d.append("nested (re-entrant) run: model class %d rem %d, impl class %d rem %s" % (mc, mrem, ic, irem))
         if (r["rv"] or "") != m["rv"]:
             d.append("return value differs: model len %d impl len %d" % (len(m["rv"]) // 2, len(r["rv"] or "") // 2))
         if r["ints"] != m["ints"]:
@@ -960,13 +1106,28 @@ def order_lint(repo):
 
 
 # ------------------------------------------------------------------------------------------ run
-def eval_model(ctx, name, items):
-    """items: list of (script, digests, [energies]) -> list of [canon per energy]"""
-    exprs = []
-    for sc, dg, es in items:
-        exprs.append("let sc := %s in map (run_view sc) [%s]" % (to_coq(sc, dg), ";".join(str(e) for e in es)))
-    terms = c.coq_eval(ctx, name, PRE, exprs, shard=max(4, min(40, len(exprs) // 16 + 1)), timeout=1500)
-    return [[canon_model(t) for t in ts] for ts in terms]
+def eval_model(ctx, runner, items, nproc=16):
+    """items: list of (script, digests, [energies]) -> list of [canon per energy]; runs the extracted model"""
+    import concurrent.futures
+    lines = [to_model_line(sc, dg, es) for sc, dg, es in items]
+    chunks = [list(range(i, len(lines), nproc)) for i in range(nproc)]
+    chunks = [ch for ch in chunks if ch]
+
+    def work(ch):
+        inp = "\n".join(lines[i] for i in ch) + "\n"
+        rc, out = c.run_bin(runner, [], timeout=3000, input=inp.encode())
+        js = [json.loads(l) for l in out.splitlines() if l.startswith("{")]
+        return ch, rc, js, out
+    res = [None] * len(items)
+    with concurrent.futures.ThreadPoolExecutor(max_workers=nproc) as ex:
+        for ch, rc, js, out in ex.map(work, chunks):
+            want = sum(len(items[i][2]) for i in ch)
+            if rc != 0 or len(js) != want or any("error" in j for j in js):
+                raise RuntimeError("model runner failed (rc %s, %d of %d results): %s" % (rc, len(js), want, out[-600:]))
+            it = iter(js)
+            for i in ch:
+                res[i] = [canon_model(next(it)) for _ in items[i][2]]
+    return res
 
 
 def run(ctx):
@@ -1004,8 +1165,12 @@ def run(ctx):
             proof_broken = info
             ctx.log("proof obligations broken:", info["failed_file"], info["error"][-600:])
     okm, outm = c.coq_build(ctx, ["Contract/HostRun.vo"])
+    runner = None
+    if okm:
+        okm, runner = c.extract_build(ctx, "ExtractC14.v", "driver_c14.ml", "c14")
+        outm = runner
     if not okm:
-        ctx.violation({"layer": "Coq model build", "error": outm, "tie": tie_broken},
+        ctx.violation({"layer": "Coq model build / extraction", "error": outm, "tie": tie_broken},
                       "the executable model no longer builds (%s)" % (tie_broken or "see error"), no_input=True)
         return
 
@@ -1044,7 +1209,7 @@ def run(ctx):
         todo = list(batch)
         resA = {}
         for rnd in range(4):
-            res = eval_model(ctx, "a%d_%d" % (bi, rnd), [(sc, dg[sc["id"]], [first_e[sc["id"]]]) for sc in todo])
+            res = eval_model(ctx, runner, [(sc, dg[sc["id"]], [first_e[sc["id"]]]) for sc in todo])
             nxt = []
             for sc, r in zip(todo, res):
                 m = r[0]
@@ -1084,7 +1249,7 @@ def run(ctx):
             budgets[sc["id"]] = es
         # phase B: remaining budgets
         itemsB = [(sc, dg[sc["id"]], budgets[sc["id"]][1:]) for sc in batch if len(budgets[sc["id"]]) > 1]
-        resB = eval_model(ctx, "b%d" % bi, itemsB) if itemsB else []
+        resB = eval_model(ctx, runner, itemsB) if itemsB else []
         ctx.log("batch %d: phase B done" % bi)
         model = {sc["id"]: {budgets[sc["id"]][0]: resA[sc["id"]]} for sc in batch}
         for (sc, _, es), ms in zip(itemsB, resB):
@@ -1146,8 +1311,8 @@ def run(ctx):
 
     # depth tracking
     depth_cases = [1022, 1023, 1024, 1025] + ([0, 1, 2000] if not ctx.quick else [])
-    dexprs = ["run_depth %d 1000000" % d for d in depth_cases]
-    dterms = c.coq_eval(ctx, "depth", PRE, dexprs, shard=8)
+    rc, out = c.run_bin(runner, [], timeout=600, input=("\n".join("D %d %d 1000000" % (i, d) for i, d in enumerate(depth_cases)) + "\n").encode())
+    dterms = [(json.loads(l)["cls"],) for l in out.splitlines() if l.startswith("{")]
     inp = "\n".join(json.dumps({"id": i, "ver": i % 2, "kind": "depth", "pv": 5, "n": d, "energies": ["1000000"]})
                     for i, d in enumerate(depth_cases)) + "\n"
     rc, out = c.run_bin(binp, ["run"], timeout=600, input=inp.encode())
